@@ -46,7 +46,7 @@ TEXT = {
              "32-byte canaries on both sides). Read-only operands end exactly at the end (backward scanners: also "
              "start at the start) of their heap block, so one byte of over-read is a sanitizer failure. All pairs of "
              "5-byte arrays over {00,'a','A',FF} (6-byte in thorough) are enumerated through every function and "
-             "every n. A separate target runs all functions with operand lengths 250..262 / 0..300 / 508..520 / 0..1100. Absence of defects beyond the explored inputs is not established. A further target calls 27 of the functions through the names the bundled <string.h> / <strings.h> provide (a C unit compiled against compat/libc/include), with side-effecting argument expressions whose evaluations are counted.",
+             "every n. A separate target runs all functions with operand lengths 250..262 / 0..300 / 508..520 / 0..1100. Absence of defects beyond the explored inputs is not established. A further target calls 27 of the functions through the names the bundled <string.h> / <strings.h> provide (a C unit compiled against compat/libc/include), with side-effecting argument expressions whose evaluations are counted. A further target places one needle in 200..1300 bytes of filler at multiples of 64..512 from either end for the five scanning functions.",
     "note": "Trusted: host glibc 2.36 string functions in the C locale as the reference, the three-line reference "
             "definitions of strlcpy (BSD: returns strlen(src)), strlwr/strupr (ASCII letters only), clang ASan/UBSan. "
             "The shim is compiled against the host headers but with its own ctype.h (tolower from igris/util/ctype.h). "
